@@ -65,11 +65,39 @@ type StepOut struct {
 	RR     ReconcileResult
 	CmdErr error  // kubectl-eds command error
 	CmdOut string // kubectl-eds command output
+	MidRan bool   // "mid:" variant: the command was executed (the reconcile made a write call)
 	Next   *State
 }
 
 // Templates is the scenario's template alphabet (tag -> template); the tag is the image of container "main".
 type Templates map[string]corev1.PodTemplateSpec
+
+// RunKubectl runs the real body of one kubectl-eds command (export shims, build tag verif) with the given client.
+func RunKubectl(c client.Client, ns, name, cmd string) (error, string) {
+	var buf bytes.Buffer
+	var err error
+	switch cmd {
+	case "canary-pause":
+		err = plugcanary.VerifRunPause(c, ns, name, &buf)
+	case "canary-unpause":
+		err = plugcanary.VerifRunUnpause(c, ns, name, &buf)
+	case "canary-validate":
+		err = plugcanary.VerifRunValidate(c, ns, name, &buf)
+	case "canary-fail":
+		err = plugcanary.VerifRunFail(c, ns, name, &buf)
+	case "pause-rolling-update":
+		err = plugpause.VerifRun(c, ns, name, true, &buf)
+	case "unpause-rolling-update":
+		err = plugpause.VerifRun(c, ns, name, false, &buf)
+	case "freeze-rollout":
+		err = plugfreeze.VerifRun(c, ns, name, true, &buf)
+	case "unfreeze-rollout":
+		err = plugfreeze.VerifRun(c, ns, name, false, &buf)
+	default:
+		panic("unknown kubectl command " + cmd)
+	}
+	return err, buf.String()
+}
 
 // Apply executes ev on the live world (inside the bubble).
 func Apply(l *Live, s *State, ev Event, tpls Templates) *StepOut {
@@ -100,6 +128,23 @@ func Apply(l *Live, s *State, ev Event, tpls Templates) *StepOut {
 			if hit {
 				done = true
 				return parts[1]
+			}
+			return ""
+		}
+	}
+	if strings.HasPrefix(ev.K, "R_") && strings.HasPrefix(ev.B, "mid:") {
+		// a controller step that is overtaken by a user command: B = "mid:<command>:<ns/eds>"; the real command body runs
+		// (against the store, unrecorded) immediately before the first write call of the reconcile, i.e. after the
+		// reconcile has read its objects. Reconciles are not atomic in a real cluster: this is the one sub-reconcile
+		// interleaving the exploration offers.
+		parts := strings.SplitN(ev.B, ":", 3)
+		ens, ename := split(parts[2])
+		done := false
+		l.API.FaultFn = func(idx int, c *Call) string {
+			if !done && c.IsWrite() {
+				done = true
+				out.CmdErr, out.CmdOut = RunKubectl(in, ens, ename, parts[1])
+				out.MidRan = true
 			}
 			return ""
 		}
@@ -198,28 +243,7 @@ func Apply(l *Live, s *State, ev Event, tpls Templates) *StepOut {
 		}
 		must(in.Update(ctx, e))
 	case "kubectl": // B = command; runs the REAL command body against the recording API layer
-		var buf bytes.Buffer
-		switch ev.B {
-		case "canary-pause":
-			out.CmdErr = plugcanary.VerifRunPause(l.API, ns, name, &buf)
-		case "canary-unpause":
-			out.CmdErr = plugcanary.VerifRunUnpause(l.API, ns, name, &buf)
-		case "canary-validate":
-			out.CmdErr = plugcanary.VerifRunValidate(l.API, ns, name, &buf)
-		case "canary-fail":
-			out.CmdErr = plugcanary.VerifRunFail(l.API, ns, name, &buf)
-		case "pause-rolling-update":
-			out.CmdErr = plugpause.VerifRun(l.API, ns, name, true, &buf)
-		case "unpause-rolling-update":
-			out.CmdErr = plugpause.VerifRun(l.API, ns, name, false, &buf)
-		case "freeze-rollout":
-			out.CmdErr = plugfreeze.VerifRun(l.API, ns, name, true, &buf)
-		case "unfreeze-rollout":
-			out.CmdErr = plugfreeze.VerifRun(l.API, ns, name, false, &buf)
-		default:
-			panic("unknown kubectl command " + ev.B)
-		}
-		out.CmdOut = buf.String()
+		out.CmdErr, out.CmdOut = RunKubectl(l.API, ns, name, ev.B)
 	case "addNode": // A = node name, B = "k=v,k=v" labels
 		n := MkNode(ev.A, parseLabels(ev.B))
 		n.CreationTimestamp = now()
